@@ -34,7 +34,7 @@ FEATSETS = {
 }
 
 
-SETUP_FEATSETS = ["hac"]
+SETUP_FEATSETS = ["hac", "ha", "hc", "ac", "h", "a", "c", "none"]
 
 
 class Broken(Exception):
